@@ -64,6 +64,8 @@ def stmt_code(s, ctx):
         return [("push", s[3]), ("push", s[2]), ("push", s[1]), "CALLDATACOPY"]
     if k == "codecopy":
         return [("push", s[3]), ("push", s[2]), ("push", s[1]), "CODECOPY"]
+    if k == "extcodecopy":  # ("extcodecopy", addr, d, o, n)
+        return [("push", s[4]), ("push", s[3]), ("push", s[2]), ("push", s[1]), "EXTCODECOPY"]
     if k == "if":  # ("if", cond, [stmts])
         lab = ctx.label()
         body = []
@@ -111,6 +113,8 @@ def stmt_str(s):
         return f"log{len(s[1])}({','.join(expr_str(t) for t in s[1])};{s[2]},{s[3]})"
     if k in ("mcopy", "calldatacopy", "codecopy"):
         return f"{k}({s[1]},{s[2]},{s[3]})"
+    if k == "extcodecopy":
+        return f"extcodecopy({s[1]:#x},{s[2]},{s[3]},{s[4]})"
     if k == "if":
         return f"if({expr_str(s[1])}){{{';'.join(stmt_str(t) for t in s[2])}}}"
     if k == "ifelse":
@@ -208,6 +212,13 @@ def statements(kind):
     for op in ("MSIZE", "CALLDATASIZE", "CODESIZE", "RETURNDATASIZE", "SELFBALANCE") if full else ("MSIZE",):
         S.append(("out_op", op))
     S.append(("out", ("balance", ("caller",))))
+    # other accounts' code: this contract, an existing account without code, a non-existent account
+    for a in (0xAAAA, 0xB1, 0xDEAD) if full else (0xAAAA, 0xDEAD):
+        S.append(("extcodecopy", a, 0, 0, 32))
+        S.append(("extcodecopy", a, 1, 16, 33))
+        if full:
+            S.append(("out", ("EXTCODESIZE", ("k", a))))
+            S.append(("out", ("EXTCODEHASH", ("k", a))))
     # branches
     bodies = [[("sstore", K0, K1)], [("mstore", 0, KMAX)], [("revert", 0, 32)], [("invalid",)], [("out", K1)]]
     for c in CONDS if full else CONDS[:2]:
